@@ -54,7 +54,8 @@ CLAIMED = {
             "EVERY operation the public observation and BEHAVIOUR (argument routing, structure hash, result of running it) of EVERY object created so far is compared with "
             "its snapshot and with the heap model.",
             BASE_NOTE + "The heap model abstracts a wrapper's inputs as the inner graph's free parameters; wrappers of graphs with entry points or a selection are judged by "
-            "the snapshot oracle only.", "DESIGN.md §7 C07"),
+            "the snapshot oracle only. One defect repaired (add_nodes() without nodes returned the receiver: the excluded point of the theorem `fresh`); the oracle also "
+            "repeats every operation at the end of the history (sibling independence).", "DESIGN.md §7 C07"),
     "C18": ("proof", "Lean 4 proof: invariant over run histories of a memory model with object identity (default cells never escape) + replay of the REAL call schedule through the model",
             "Kernel-checked for ALL interleavings of any number of runs (defaults_never_escape, _runMany, _sched): no reference to a signature default object is ever "
             "handed to a function, so every default-valued argument arrives with the pristine content (result_from_initial) and repeated or concurrent runs with equal inputs "
@@ -80,7 +81,8 @@ CLAIMED = {
             "acyclic sufficiency; an accepted call covers every required name except through the bypass rule; inner bindings surface only under the wrapper's current "
             "names (negative witness for the repaired leak). Tie: generated graphs x bind/select/with_entrypoint/run-time select, all required supplied vs each single "
             "required omitted (MissingInputError, zero calls, zero events), both runners.",
-            BASE_NOTE + "necessary_partial carries NoOutputProvided (bypass rule); sufficient_dag assumes bound keys lie in the spec (see DESIGN findings).", "DESIGN.md §7 C08"),
+            BASE_NOTE + "necessary_partial carries NoOutputProvided (bypass rule); sufficient_dag assumes bound keys lie in the spec — the excluded points are the known findings "
+            "C08-F1 (entry-point by-pass) and C08-F2 (a bound name that the graph itself produces), both matched by mechanism.", "DESIGN.md §7 C08"),
     "C09": ("proof", "Lean 4 proof: LRU refinement to a map; HMAC gate under an arbitrary adversary; cache-sound invariant + correspondence (op logs, disk scenarios, cached vs uncached runs)",
             "Kernel-checked: the LRU never exceeds max_size, returns only the latest value stored under the key, retains recently used keys; DiskCache.get is total, "
             "deserialises only authenticated bytes, treats every other state (bit flip, truncation, type change, missing slot, torn write, stale tag) as a miss and evicts; "
@@ -91,7 +93,9 @@ CLAIMED = {
             "runs; recorded get/set logs replayed through the LRU model; disk scenarios with a pickle.loads spy vs the disk model.",
             BASE_NOTE + "SHA-256 collision freedom, HMAC unforgeability, pickle and diskcache are assumptions; the whole-run theorems cover function / if-else / route nodes (a cacheable "
             "interrupt reads the run state and is covered by the correspondence only) and the sync runner. Known finding C09-F1 (pickle memo makes keys identity-sensitive); "
-            "seven defects repaired (key over renamed names, gate fallback, name tables of the bytecode hash, non-ASCII signature, emit sentinel identity, cached interrupts, shared outputs).", "DESIGN.md §7 C09"),
+            "Known finding C09-F2 (the in-memory backend stores by reference). Ten defects repaired (key over renamed names, gate fallback, name tables / nested code objects / "
+            "captured values in the definition hash, non-ASCII signature, rows in the store's own pickle mode unpickled before the HMAC check, emit sentinel identity, cached "
+            "interrupts, shared outputs). Injectivity of the definition hash on definitions is a hypothesis of the theorems.", "DESIGN.md §7 C09"),
     "C12": ("proof", "Lean 4 proof: runs generate a span-tree grammar; grammar implies flat well-nestedness; per-span orderings survive interleaving + correspondence with a span-tree oracle",
             "Kernel-checked for every program, runner, completion order and nesting depth: the event log of a terminated run is a trace of the span-tree grammar (RunStart first, "
             "RunEnd last with the observed status, every NodeStart closed once, children inside parents, nested runs parented to the launching node, route decisions inside "
@@ -103,13 +107,15 @@ CLAIMED = {
             "complete stream; a run's result does not depend on the processors; BaseExceptions propagate (outside the claim). Tie: for each generated execution with m events, "
             "re-runs with a processor failing at each index, always, and at shutdown (sync and async processors, both runners) vs the processor-free run; healthy recorder "
             "sees the full stream; the real EventDispatcher driven directly vs the model.",
-            BASE_NOTE + "The tie between the dispatcher model and the ~dozen real emission sites is the per-index correspondence, not a theorem.", "DESIGN.md §7 C13"),
-    "C14": ("proof", "Lean 4 proof: isolation of the interrupt step, pause state = pre-step state, seeded-run convergence (resume = auto-answer) + correspondence over pause/resume histories",
+            BASE_NOTE + "The tie between the dispatcher model and the ~dozen real emission sites is the per-index correspondence, not a theorem; events are values in the model, so "
+            "'an event never aliases run state' is carried by the tie (failing processors scribble over every container they receive; one defect repaired: the decision list).", "DESIGN.md §7 C13"),
+    "C14": ("proof", "Lean 4 proof: isolation of the interrupt step, pause state = pre-step state (+ completed step siblings for a nested pause), seeded-run convergence (resume = auto-answer) + correspondence over pause/resume histories",
             "Kernel-checked: a paused run returns PAUSED with the interrupt's identity, first input value and output name and the values computed before the pausing step; an "
             "interrupt runs alone in its step; executed nodes had all their inputs, so nothing needing the interrupt's output ran; the resume path skips the handler; for acyclic "
             "programs re-running with the response supplied equals the run whose handler answers directly (any completion orders); nested pauses are path-qualified; one pause "
             "at a time. Tie: DAGs with 1-3 interrupts, every pause/resume history vs the auto-answer run, nested pause identity, on the controllable loop.",
-            BASE_NOTE + "Known finding C14-F1: nested resume keys are produced but never consumed.", "DESIGN.md §7 C14"),
+            BASE_NOTE + "Known finding C14-F1: nested resume keys are produced but never consumed. One defect repaired (a nested pause dropped the outputs of outer nodes that ran in "
+            "the same step; StepOut.pause now carries the partial state).", "DESIGN.md §7 C14"),
     "C15": ("proof", "Lean 4 proof: transition-system invariant (holding + free = k), progress and measure + correspondence with adversarial schedules",
             "Kernel-checked for every k >= 1 and every nest/map shape: at most k leaves hold a permit, every non-final reachable state has an enabled transition, every schedule "
             "has length 2 x leaves and ends with all done, final state independent of k; the hold-while-awaiting variant deadlocks (negative witness); worker pool bound. Tie: "
